@@ -15,7 +15,7 @@ var isJavaTestPackage = func(path string) bool {
 }
 
 var JavaTestFileFilter = func(path string) bool {
-        return isJavaTestFile(path) || isJavaTestPackage(path)
+	return strings.HasSuffix(path, ".java") && (isJavaTestFile(path) || isJavaTestPackage(path))
 }
 
 var JavaCodeFileFilter = func(path string) bool {
